@@ -440,7 +440,7 @@ End RunGen.
 End Records.
 
 (* ------------------------------------------------------------------ *)
-(* G. geometry of the image shifts                                     *)
+(* 4b. geometry of the image shifts (uses Spec/GeometryPer.v)          *)
 (* ------------------------------------------------------------------ *)
 Section PerGeom.
 Variable d : nat.
@@ -1491,4 +1491,319 @@ Proof.
   - intros p q s. rewrite HR, (sumn_perm _ _ _ Hperm), sumn_app, p2p_sum_p, inner_sum_p. reflexivity.
 Qed.
 
+(* ------------------------------------------------------------------ *)
+(* 10. downward passes: L2L and L2P                                    *)
+(* ------------------------------------------------------------------ *)
+Lemma l2l_level_effect_p l w : 0 <= l <= H - 2 ->
+  (forall l' x y, ci (p_mult (rrun (l2l_level d t l) w) l' x) y = ci (p_mult w l' x) y) /\
+  (forall l' x y, ci (p_loc (rrun (l2l_level d t l) w) l' x) y
+     = ci (p_loc w l' x) y
+       +n (if (l' =? l + 1) && zmem x (cells (l + 1)) then ci (p_loc w l (parent d x)) y else 0%nat)) /\
+  (forall p y, ci (p_rhs (rrun (l2l_level d t l) w) p) y = ci (p_rhs w p) y).
+Proof.
+  intros Hl. pose proof (t_l2l_level_ok l Hl) as Hel. unfold spec_links in Hel.
+  assert (Hok' : Forall (peok nordM (fun l' _ => l' = l)) (elementary (l2l_level d t l))).
+  { rewrite Hel. apply Forall_forall. intros e He. apply in_map_iff in He. destruct He as (c & <- & _).
+    apply peok_L2L; [reflexivity|lia]. }
+  destruct (rrun_counts d L _ _ _ Hok' w) as (HM & HL & HR). rewrite Hel in HM, HL, HR.
+  repeat split.
+  - intros l' x y. rewrite HM, sumn_zero; [lia|]. intros e He. apply in_map_iff in He. destruct He as (c & <- & _). reflexivity.
+  - intros l' x y. rewrite HL. f_equal. rewrite sumn_map. cbn [pcl].
+    destruct (l' =? l + 1); cbn [andb].
+    + rewrite (sumn_ext_in _ (fun c => if c =? x then ci (p_loc w l (parent d c)) y else 0%nat)).
+      2:{ intros c _. rewrite (Z.eqb_sym x). reflexivity. }
+      apply (sumn_pick _ x (fun c => ci (p_loc w l (parent d c)) y)). apply t_cells_nodup. lia.
+    + apply sumn_zero. reflexivity.
+  - intros p y. rewrite HR, sumn_zero; [lia|]. intros e He. apply in_map_iff in He. destruct He as (c & <- & _). reflexivity.
+Qed.
+
+(* accumulated in-box far field of cell x of level k: one term per level 1..k *)
+Definition Fsum_p (k x : Z) (y : ival) : nat := sumn (fun l' => farv l' (anc d k l' x) y) (zrange 1 k).
+
+(* T = what the top tree has put into every level-1 local *)
+Definition LocInvP (T : ival -> nat) (k : Z) (w : pst) : Prop :=
+  (forall x y, In x (cells k) -> ci (p_loc w k x) y = T y +n Fsum_p k x y) /\
+  (forall l x y, k < l <= L -> In x (cells l) -> ci (p_loc w l x) y = farv l x y).
+
+Lemma Fsum_step_p k x y : 1 <= k + 1 -> Fsum_p (k + 1) x y = Fsum_p k (parent d x) y +n farv (k + 1) x y.
+Proof.
+  intros Hs. unfold Fsum_p. rewrite ExactlyOnce.zrange_snoc by exact Hs. rewrite sumn_app, sumn_cons, sumn_nil.
+  rewrite anc_self. rewrite Nat.add_0_r. f_equal.
+  apply sumn_ext_in. intros l' Hl'. apply In_zrange in Hl'. rewrite (anc_child d Hd Hcap) by lia. reflexivity.
+Qed.
+
+Lemma Fsum_base_p x y : Fsum_p 1 x y = farv 1 x y.
+Proof. unfold Fsum_p. change (zrange 1 1) with [1]. rewrite sumn_cons, sumn_nil, anc_self. lia. Qed.
+
+Lemma l2l_level_inv_p T k w : 1 <= k <= H - 2 -> LocInvP T k w -> LocInvP T (k + 1) (rrun (l2l_level d t k) w).
+Proof.
+  intros Hk (Ha & Hb). destruct (l2l_level_effect_p k w ltac:(lia)) as (_ & HLc & _). split.
+  - intros x y Hx. rewrite HLc, Z.eqb_refl. cbn [andb]. rewrite (proj2 (zmem_In x _) Hx).
+    rewrite (Hb (k + 1) x y ltac:(lia) Hx), (Ha (parent d x) y (t_parent_in_cells k x ltac:(lia) Hx)).
+    rewrite Fsum_step_p by lia. lia.
+  - intros l x y Hl Hx. rewrite HLc. destruct (Z.eqb_spec l (k + 1)); [lia|]. cbn [andb].
+    rewrite (Hb l x y ltac:(lia) Hx). lia.
+Qed.
+
+Lemma l2l_pass_inv_p T : forall n k w, k = L - Z.of_nat n -> 1 <= k -> LocInvP T k w ->
+  LocInvP T L (rrun (flat_map (l2l_level d t) (zrange k (H - 2))) w) /\
+  (forall l x y, ci (p_mult (rrun (flat_map (l2l_level d t) (zrange k (H - 2))) w) l x) y = ci (p_mult w l x) y) /\
+  (forall p y, ci (p_rhs (rrun (flat_map (l2l_level d t) (zrange k (H - 2))) w) p) y = ci (p_rhs w p) y).
+Proof.
+  induction n as [|n IH]; intros k w Ek Hk Hinv.
+  - rewrite ExactlyOnce.zrange_nil by lia. cbn [flat_map]. replace k with L in Hinv by lia.
+    repeat split; try apply Hinv; intros; reflexivity.
+  - rewrite ExactlyOnce.zrange_cons by lia. cbn [flat_map]. rewrite rrun_app.
+    destruct (l2l_level_effect_p k w ltac:(lia)) as (E1 & _ & E3).
+    pose proof (l2l_level_inv_p T k w ltac:(lia) Hinv) as Hinv1.
+    set (w1 := rrun (l2l_level d t k) w) in *.
+    destruct (IH (k + 1) w1 ltac:(lia) ltac:(lia) Hinv1) as (I1 & I2 & I3).
+    repeat split; try apply I1.
+    + intros l x y. rewrite I2. apply E1.
+    + intros p y. rewrite I3. apply E3.
+Qed.
+
+Lemma l2p_effect_p w :
+  (forall l x y, ci (p_mult (rrun (pass_L2P 1 t) w) l x) y = ci (p_mult w l x) y) /\
+  (forall l x y, ci (p_loc (rrun (pass_L2P 1 t) w) l x) y = ci (p_loc w l x) y) /\
+  (forall p y, ci (p_rhs (rrun (pass_L2P 1 t) w) p) y
+     = ci (p_rhs w p) y +n (if valid p then ci (p_loc w L (lo p)) y else 0%nat)).
+Proof.
+  rewrite t_pass_L2P.
+  set (tr := map (fun lf => CL2P (lf_index lf) (lf_parts lf)) lvs).
+  assert (Hel : elementary tr = map (fun lf => EL2P (lf_index lf) (lf_parts lf)) lvs).
+  { apply elementary_map_single. reflexivity. }
+  assert (Hok' : Forall (peok nordM allrd) (elementary tr)).
+  { rewrite Hel. apply Forall_forall. intros e He. apply in_map_iff in He. destruct He as (lf & <- & _).
+    apply peok_L2P. exact I. }
+  destruct (rrun_counts d L _ _ tr Hok' w) as (HM & HL & HR). rewrite Hel in HM, HL, HR.
+  repeat split.
+  - intros l x y. rewrite HM, sumn_zero; [lia|]. intros e He. apply in_map_iff in He. destruct He as (lf & <- & _). reflexivity.
+  - intros l x y. rewrite HL, sumn_zero; [lia|]. intros e He. apply in_map_iff in He. destruct He as (lf & <- & _). reflexivity.
+  - intros p y. rewrite HR. f_equal. rewrite sumn_map. cbn [pcr].
+    rewrite (sumn_ext_in _ (fun lf => (fun c => if c =? lo p then (if valid p then ci (p_loc w L c) y else 0%nat) else 0%nat) (lf_index lf))).
+    2:{ intros lf Hlf. cbv beta. rewrite (t_cnt_parts lf p Hlf). rewrite (Z.eqb_sym (lo p)).
+        destruct (valid p); destruct (lf_index lf =? lo p); cbn [andb b2n]; lia. }
+    rewrite (t_sumn_leaves (fun c => if c =? lo p then (if valid p then ci (p_loc w L c) y else 0%nat) else 0%nat)).
+    destruct (valid p) eqn:Hv.
+    + apply (sumn_pick_in _ (lo p) (fun c => ci (p_loc w L c) y)); [apply t_cells_nodup; lia|apply t_lo_leaf; exact Hv].
+    + apply sumn_zero. intros c _. destruct (c =? lo p); reflexivity.
+Qed.
+
+(* ------------------------------------------------------------------ *)
+(* 11. the complete periodic sequence                                  *)
+(* ------------------------------------------------------------------ *)
+Lemma mid_eq : execute d true 1 (F_M2L + F_P2P) t = pass_M2L d true 1 t ++ pass_P2P d true t.
+Proof. unfold execute. cbn. reflexivity. Qed.
+
+Lemma down_eq : execute d true 1 (F_L2L + F_L2P) t = pass_L2L d 1 t ++ pass_L2P 1 t.
+Proof. unfold execute. cbn. rewrite app_nil_r. reflexivity. Qed.
+
+Definition topT (k : Z) (y : ival) : nat := b2n (valid (fst y) && (0 <=? k) && farsb k (snd y)).
+
+Lemma run_split k :
+  prun d k L (periodic_run d k 1 t) pst0
+  = rrun (pass_L2P 1 t) (rrun (pass_L2L d 1 t) (rrun (pass_P2P d true t) (rrun (pass_M2L d true 1 t) (run_up_top k)))).
+Proof.
+  unfold periodic_run, run_up_top. rewrite !prun_app, !prun_real, mid_eq, down_eq, !rrun_app. reflexivity.
+Qed.
+
+Lemma final_state k : -1 <= k ->
+  MultInvP 1 (prun d k L (periodic_run d k 1 t) pst0) /\
+  (forall p q s, valid p = true ->
+     ci (p_rhs (prun d k L (periodic_run d k 1 t) pst0) p) (q, s)
+     = nearv p (q, s) +n (topT k (q, s) +n Fsum_p L (lo p) (q, s))).
+Proof.
+  intros Hk. rewrite run_split.
+  destruct (up_top_state k Hk) as (I2 & L2 & R2). set (w2 := run_up_top k) in *.
+  destruct (m2l_effect_p w2 I2) as (M3 & L3 & R3). set (w3 := rrun (pass_M2L d true 1 t) w2) in *.
+  destruct (p2p_effect_p w3) as (M4 & L4 & R4). set (w4 := rrun (pass_P2P d true t) w3) in *.
+  assert (I4 : LocInvP (topT k) 1 w4).
+  { split.
+    - intros x [q' s'] Hx. rewrite L4, L3, L2, Fsum_base_p. rewrite Z.eqb_refl, (proj2 (zmem_In x _) Hx).
+      replace ((1 <=? 1) && (1 <=? L)) with true by lia. reflexivity.
+    - intros l x [q' s'] Hl Hx. rewrite L4, L3, L2. rewrite (proj2 (zmem_In x _) Hx).
+      replace ((1 <=? l) && (l <=? L)) with true by lia. replace (l =? 1) with false by lia. reflexivity. }
+  rewrite (pass_L2L_eq d H B mode t Hok 1).
+  destruct (l2l_pass_inv_p (topT k) (Z.to_nat (L - 1)) 1 w4 ltac:(lia) ltac:(lia) I4) as (I5 & M5 & R5).
+  set (w5 := rrun (flat_map (l2l_level d t) (zrange 1 (H - 2))) w4) in *.
+  destruct (l2p_effect_p w5) as (M6 & L6 & R6).
+  split.
+  - destruct I2 as [Ia Ib]. split.
+    + intros l x q s Hl. rewrite M6, M5, M4, M3. apply Ia. exact Hl.
+    + intros l x y Hl. rewrite M6, M5, M4, M3. apply Ib. exact Hl.
+  - intros p q s Hp. rewrite R6, R5, R4, R3, R2, Hp. cbn [Nat.add].
+    rewrite (proj1 I5 (lo p) (q, s) (t_lo_leaf p Hp)). reflexivity.
+Qed.
+
+Lemma final_rhs k p q s : -1 <= k -> valid p = true ->
+  ci (p_rhs (prun d k L (periodic_run d k 1 t) pst0) p) (q, s)
+  = nearv p (q, s) +n (topT k (q, s) +n Fsum_p L (lo p) (q, s)).
+Proof. intros Hk Hp. apply (proj2 (final_state k Hk)). exact Hp. Qed.
+
+(* the multipoles of the levels 1..L are not touched after the upward call *)
+Lemma final_mult k : -1 <= k -> MultInvP 1 (prun d k L (periodic_run d k 1 t) pst0).
+Proof. intros Hk. apply (final_state k Hk). Qed.
+
+Lemma allzero_veqb s : length s = d -> forallb (Z.eqb 0) s = veqb s zv.
+Proof.
+  intros Hs. apply eq_true_iff_eq. rewrite veqb_eq. split.
+  - intros E. rewrite <- Hs. apply forallb_eqb0_repeat. exact E.
+  - intros ->. apply forallb_eqb0_of_repeat.
+Qed.
+
+Lemma rep_interval_bounds k : 0 <= k -> fst (repetition_interval k) <= -1 /\ 1 <= snd (repetition_interval k).
+Proof.
+  intros Hk. destruct (Z.eq_dec k 0) as [->|Hne]; [cbn; lia|].
+  rewrite repetition_interval_pos by lia. cbn [fst snd].
+  assert (2 <= 2 ^ k) by (change 2 with (2 ^ 1) at 1; apply Z.pow_le_mono_r; lia). lia.
+Qed.
+
+Lemma zv_inbox : inbox (-1) 1 zv = true.
+Proof. apply inbox_spec. apply Forall_forall. intros x Hx. apply repeat_spec in Hx. lia. Qed.
+
+(* MAIN, inside the section: the count of (q, s) in particle p *)
+Lemma final_count k p q s : -1 <= k -> 0 <= p < zlen idx ->
+  ci (p_rhs (prun d k L (periodic_run d k 1 t) pst0) p) (q, s)
+  = expected d (zlen idx) (fst (repetition_interval k)) (snd (repetition_interval k)) p q s.
+Proof.
+  intros Hk Hp. assert (Hvp : valid p = true) by (apply t_valid_iff; exact Hp).
+  rewrite (final_rhs k p q s Hk Hvp). unfold expected. fold (valid q).
+  change ((0 <=? q) && (q <? zlen idx)) with (valid q).
+  change (forallb (fun x => (fst (repetition_interval k) <=? x) && (x <=? snd (repetition_interval k))) s)
+    with (inbox (fst (repetition_interval k)) (snd (repetition_interval k)) s).
+  unfold nearv, topT, Fsum_p, farv. cbn [fst snd]. rewrite Hvp.
+  destruct (valid q) eqn:Hvq; cbn [andb].
+  2:{ unfold innerv. fold (valid p) (valid q). rewrite Hvp, Hvq. cbn [andb b2n]. rewrite sumn_zero by reflexivity. reflexivity. }
+  assert (Hin : innerv idx p q = b2n (negb (q =? p) && (lo q =? lo p))).
+  { unfold innerv. fold (valid p) (valid q). rewrite Hvp, Hvq. reflexivity. }
+  rewrite Hin.
+  pose proof (geom_once d Hd L (lo p) (lo q) s p q ltac:(lia) (t_lo_range p Hvp) (t_lo_range q Hvq)
+                ltac:(intros ->; reflexivity)) as HG.
+  cbn [b2n] in *. unfold zb.
+  set (S1 := sumn (fun l' => farn d l' (anc d L l' (lo p)) (anc d L l' (lo q)) s) (zrange 1 L)) in *.
+  set (N1 := upn d L (lo p) (lo q) s +n upn' d L (lo q) (lo p) s) in *.
+  set (I1 := b2n (negb (q =? p) && (lo q =? lo p)) *n b2n (veqb s zv)) in *.
+  replace (1 *n N1 +n I1 +n (b2n ((0 <=? k) && farsb k s) +n S1))
+    with (S1 +n N1 +n I1 +n b2n ((0 <=? k) && farsb k s)) by lia.
+  rewrite HG. clear HG S1 N1 I1 Hin.
+  destruct (Nat.eqb (length s) d) eqn:Hs; cbn [andb].
+  2:{ unfold farsb. rewrite Hs. cbn [andb]. rewrite andb_false_r. reflexivity. }
+  apply Nat.eqb_eq in Hs. rewrite (allzero_veqb s Hs). unfold farsb. rewrite (proj2 (Nat.eqb_eq _ _) Hs). cbn [andb].
+  destruct (Z_lt_le_dec k 0) as [Hneg|Hpos].
+  - assert (k = -1) as -> by lia. cbn [repetition_interval Z.eqb fst snd Z.leb Z.compare andb b2n].
+    change (repetition_interval (-1)) with (-1, 1). cbn [fst snd].
+    destruct (inbox (-1) 1 s && negb ((q =? p) && veqb s zv)); reflexivity.
+  - replace (0 <=? k) with true by lia. cbn [andb].
+    destruct (rep_interval_bounds k Hpos) as [Blo Bhi].
+    set (rlo := fst (repetition_interval k)) in *. set (rhi := snd (repetition_interval k)) in *.
+    destruct (inbox (-1) 1 s) eqn:E1; cbn [andb negb].
+    + rewrite (inbox_mono (-1) 1 rlo rhi s Blo Bhi E1). rewrite andb_false_r. cbn [b2n andb].
+      destruct (negb ((q =? p) && veqb s zv)); reflexivity.
+    + assert (Ez : veqb s zv = false).
+      { destruct (veqb s zv) eqn:E; [|reflexivity]. apply veqb_eq in E. rewrite E, zv_inbox in E1. discriminate. }
+      rewrite Ez, andb_false_r, andb_true_r. cbn [negb andb b2n]. destruct (inbox rlo rhi s); reflexivity.
+Qed.
+
+
 End PerCompose.
+
+(* ------------------------------------------------------------------ *)
+(* 12. the top-level theorems                                          *)
+(* ------------------------------------------------------------------ *)
+(* (a) the top tree: after the upward call and the top-tree calls, every level-1 local holds every particle at every
+   whole-box shift of the reported repetition cube minus [-1,1]^d, each exactly once, and nothing else *)
+Theorem top_part_images : forall d H B mode k t idx, (0 < d)%nat -> 2 <= H -> 0 <= k ->
+  tree_ok (parent d) H B mode t -> particles_ok idx t -> Forall (fun i => 0 <= i < 2 ^ ((H - 1) * dz d)) idx -> idx <> [] ->
+  let st := prun d k (H - 1) (map Real (execute d true 1 (F_P2M + F_M2M) t) ++ map Top (top_execute d k 63 t)) pst0 in
+  let (lo, hi) := repetition_interval k in
+  forall c1 q sigma, In c1 (level_cells (levels_of t 1)) ->
+    count_occ ival_eq_dec (p_loc st 1 c1) (q, sigma)
+    = if (0 <=? q) && (q <? zlen idx) && Nat.eqb (length sigma) d && forallb (fun x => (lo <=? x) && (x <=? hi)) sigma
+         && negb (forallb (fun x => (-1 <=? x) && (x <=? 1)) sigma) then 1%nat else 0%nat.
+Proof.
+  intros d H B mode k t idx Hd HH Hk Hok Hpart Hrange _ st.
+  destruct (up_top_state d Hd H B mode t idx HH Hok Hpart k ltac:(lia)) as (_ & HL & _).
+  fold (run_up_top d H t k) in st. unfold run_up_top in HL. fold st in HL.
+  destruct (repetition_interval k) as [lo hi] eqn:Ek.
+  intros c1 q sigma Hc. change (count_occ ival_eq_dec ?v ?y) with (ci v y). rewrite HL.
+  rewrite Z.eqb_refl, (proj2 (zmem_In c1 _) Hc). cbn [andb].
+  replace (0 <=? k) with true by lia. unfold farsb, inbox, ExactlyOnce.valid. rewrite Ek. cbn [fst snd].
+  rewrite andb_true_r, !andb_assoc. reflexivity.
+Qed.
+
+(* the multipole invariant: after the whole periodic sequence every multipole of a level 1..H-1 holds exactly the
+   particles below its cell, each once, at zero shift *)
+Theorem per_multipoles : forall d H B mode k t idx, (0 < d)%nat -> 2 <= H -> -1 <= k ->
+  tree_ok (parent d) H B mode t -> particles_ok idx t -> Forall (fun i => 0 <= i < 2 ^ ((H - 1) * dz d)) idx -> idx <> [] ->
+  let st := prun d k (H - 1) (periodic_run d k 1 t) pst0 in
+  forall l c q sigma, 1 <= l < H ->
+    count_occ ival_eq_dec (p_mult st l c) (q, sigma)
+    = if (0 <=? q) && (q <? zlen idx) && (anc d (H - 1) l (znth idx q (-1)) =? c) && list_eqb Z.eqb sigma (repeat 0 d)
+      then 1%nat else 0%nat.
+Proof.
+  intros d H B mode k t idx Hd HH Hk Hok Hpart Hrange _ st l c q sigma Hl.
+  destruct (final_mult d Hd H B mode t idx HH Hok Hpart Hrange k Hk) as [Hhi _]. fold st in Hhi.
+  change (count_occ ival_eq_dec ?v ?y) with (ci v y). rewrite Hhi by lia.
+  unfold ExactlyOnce.below, zb, ExactlyOnce.valid, ExactlyOnce.lo, veqb.
+  destruct ((0 <=? q) && (q <? zlen idx) && (anc d (H - 1) l (znth idx q (-1)) =? c));
+    destruct (list_eqb Z.eqb sigma (repeat 0 d)); reflexivity.
+Qed.
+
+(* MAIN *)
+Theorem periodic_exactly_once : forall d H B mode k t idx, (0 < d)%nat -> 2 <= H -> -1 <= k ->
+  tree_ok (parent d) H B mode t -> particles_ok idx t -> Forall (fun i => 0 <= i < 2 ^ ((H - 1) * dz d)) idx -> idx <> [] ->
+  let st := prun d k (H - 1) (periodic_run d k 1 t) pst0 in
+  let (lo, hi) := repetition_interval k in
+  forall p q sigma, 0 <= p < zlen idx ->
+    count_occ ival_eq_dec (p_rhs st p) (q, sigma)
+    = if (0 <=? q) && (q <? zlen idx) && (Nat.eqb (length sigma) d) && forallb (fun x => (lo <=? x) && (x <=? hi)) sigma
+         && negb ((q =? p) && forallb (Z.eqb 0) sigma) then 1%nat else 0%nat.
+Proof.
+  intros d H B mode k t idx Hd HH Hk Hok Hpart Hrange _ st.
+  pose proof (final_count d Hd H B mode t idx HH Hok Hpart Hrange k) as HF. fold st in HF.
+  destruct (repetition_interval k) as [lo hi]. cbn [fst snd] in HF.
+  intros p q sigma Hp. apply (HF p q sigma Hk Hp).
+Qed.
+
+(* (b) the in-box part alone: without extra levels (k = -1, the top tree makes no call) the wrapped lists deliver every
+   image of the 3^d adjacent copies exactly once *)
+Theorem inbox_images_once : forall d H B mode t idx, (0 < d)%nat -> 2 <= H ->
+  tree_ok (parent d) H B mode t -> particles_ok idx t -> Forall (fun i => 0 <= i < 2 ^ ((H - 1) * dz d)) idx -> idx <> [] ->
+  let st := prun d (-1) (H - 1) (periodic_run d (-1) 1 t) pst0 in
+  forall p q sigma, 0 <= p < zlen idx ->
+    count_occ ival_eq_dec (p_rhs st p) (q, sigma)
+    = if (0 <=? q) && (q <? zlen idx) && (Nat.eqb (length sigma) d) && forallb (fun x => (-1 <=? x) && (x <=? 1)) sigma
+         && negb ((q =? p) && forallb (Z.eqb 0) sigma) then 1%nat else 0%nat.
+Proof.
+  intros d H B mode t idx Hd HH Hok Hpart Hrange Hne.
+  exact (periodic_exactly_once d H B mode (-1) t idx Hd HH ltac:(lia) Hok Hpart Hrange Hne).
+Qed.
+
+(* corollary for the tree built by the model of the constructor *)
+Theorem periodic_exactly_once_build : forall d H B mode k idx, (0 < d)%nat -> 2 <= H -> 1 <= B -> -1 <= k ->
+  idx <> [] -> Forall (fun i => 0 <= i < 2 ^ ((H - 1) * dz d)) idx ->
+  let t := build (parent d) H B mode idx in
+  let st := prun d k (H - 1) (periodic_run d k 1 t) pst0 in
+  let (lo, hi) := repetition_interval k in
+  forall p q sigma, 0 <= p < zlen idx ->
+    count_occ ival_eq_dec (p_rhs st p) (q, sigma) = expected d (zlen idx) lo hi p q sigma.
+Proof.
+  intros d H B mode k idx Hd HH HB Hk Hne Hrange t.
+  assert (Hnn : Forall (fun c => 0 <= c) idx).
+  { eapply Forall_impl; [|exact Hrange]. cbv beta. intros a Ha. lia. }
+  assert (Hok : tree_ok (parent d) H B mode t).
+  { apply build_ok; try assumption; try lia.
+    - apply par_mono.
+    - intros a Ha. rewrite parent_div. apply Z.div_pos; [exact Ha|apply pow_dz_pos]. }
+  assert (Hpart : particles_ok idx t) by (apply build_particles; try assumption; lia).
+  exact (periodic_exactly_once d H B mode k t idx Hd HH Hk Hok Hpart Hrange Hne).
+Qed.
+
+Print Assumptions rrun_counts.
+Print Assumptions geom_once.
+Print Assumptions top_part_images.
+Print Assumptions per_multipoles.
+Print Assumptions inbox_images_once.
+Print Assumptions periodic_exactly_once.
+Print Assumptions periodic_exactly_once_build.
